@@ -44,6 +44,12 @@ IAbs(a) == IF a.wk THEN Wk(Abs(a.w)) ELSE Un(Abs(a.y), Abs(a.mo), Abs(a.d), Abs(
 \* to_weeks keeps only the whole weeks of the DAY field (the docstring warns: "use with caution")
 \* (Duration(weeks=0) is NOT in weeks form: the constructor keeps the unit form unless the week count is non-zero)
 IToWeeks(a) == IF a.wk THEN a ELSE IF a.d \div 7 = 0 THEN Un(0, 0, 0, 0, 0, 0) ELSE Wk(a.d \div 7)
+\* Duration(..., standardize=True): seconds carried into minutes, minutes into hours, hours into days (Python divmod = floor);
+\* years, months and the week form are left alone
+IStd(a) == IF a.wk THEN a
+           ELSE LET mi1 == a.mi + (a.s \div 60)
+                    h1  == a.h + (mi1 \div 60)
+                IN Un(a.y, a.mo, a.d + (h1 \div 24), h1 % 24, mi1 % 60, a.s % 60)
 IBool(a) == IF a.wk THEN a.w # 0 ELSE ~(a.y = 0 /\ a.mo = 0 /\ a.d = 0 /\ a.h = 0 /\ a.mi = 0 /\ a.s = 0)
 Same8(x, e) == x.wk = e.wk /\ (IF e.wk THEN x.w = e.w
                               ELSE x.y = e.y /\ x.mo = e.mo /\ x.d = e.d /\ x.h = e.h /\ x.mi = e.mi /\ x.s = e.s)
